@@ -78,7 +78,11 @@ class World:
         self.stat_ids = [id(s) for s in self.stats]
         self.z = [r.normal(size=4) * 0.3] if fam != "jfa" else [r.normal(size=1) * 0.3, r.normal(size=4) * 0.3]
         # explicit starting point of ML training (handed over to the machine through its setters)
-        self.g0 = (np.array([0.5, 0.5]), np.array([[0.5, 0.0], [2.0, 1.5]]), np.array([[1.0, 1.0], [2.0, 0.5]]))
+        # (the weights are the caller's own array, not normalised -- raw counts or rounded fractions --, and are given
+        # to the constructor / the setter BY REFERENCE: they belong to the caller like every other input)
+        self.g0 = (np.array([[0.33, 0.66], [40.0, 80.0], [0.5, 0.5]][int(r.randint(0, 3))]), np.array([[0.5, 0.0], [2.0, 1.5]]),
+                   np.array([[1.0, 1.0], [2.0, 0.5]]))
+        self.g0_copy = tuple(np.array(a) for a in self.g0)
         self.objs = {}      # step index -> {"rk", "obj", "value" (copies taken when returned), "lazy"}
         # non-default configurations of the entry points, constant within one behaviour (so that a repeated call
         # is the same call): i-vector training without covariance updating and with a floor above some of the
@@ -86,6 +90,7 @@ class World:
         self.cfg = {"iv_update_sigma": bool(r.rand() < 0.5), "iv_floor": float(r.choice([1e-10, 0.9, 1.2])),
                     # ISV / JFA given a trained UBM AND the options from which they would build one if they had none
                     "fa_enroll_iterations": int(r.randint(1, 4)),
+                    "gmm_weights_via_constructor": bool(r.randint(0, 2)),
                     "fa_ubm_kwargs": [None, dict(n_gaussians=2), dict(n_gaussians=2, max_fitting_steps=3, update_variances=True,
                                                                        update_weights=True)][r.randint(0, 3)]}
 
@@ -117,6 +122,8 @@ class World:
                 extra = repr([(type(x.t).__name__, x.t, float(x.log_likelihood)) for x in which]).encode()
             snap[c] = b"|".join(_bytes(a) for a in self.cell(c)) + extra
         snap["statslist"] = repr(([id(s) for s in self.stats] == self.stat_ids, len(self.stats))).encode()
+        # the starting parameters the caller hands to GMMMachine (no step of the model writes them)
+        snap["gmm_start_parameters"] = b"|".join(_bytes(a) for a in self.g0)
         return snap
 
     def overwrite(self, name):
@@ -161,9 +168,14 @@ class World:
         if op == "KMeansVarWeights":
             return self.machine(m).get_variances_and_weights_for_each_cluster(self.arr(form))
         if op == "GmmFitML":
-            g = em.GMMMachine(2, max_fitting_steps=2, convergence_threshold=None, update_means=True,
-                              update_variances=True, update_weights=True)
-            g.weights, g.means, g.variances = (np.array(a) for a in self.g0)
+            if self.cfg["gmm_weights_via_constructor"]:
+                g = em.GMMMachine(2, max_fitting_steps=2, convergence_threshold=None, update_means=True,
+                                  update_variances=True, update_weights=True, weights=self.g0[0])
+                g.means, g.variances = self.g0[1], self.g0[2]
+            else:
+                g = em.GMMMachine(2, max_fitting_steps=2, convergence_threshold=None, update_means=True,
+                                  update_variances=True, update_weights=True)
+                g.weights, g.means, g.variances = self.g0
             return g.fit(self.arr(form))
         if op == "MapConstruct":
             g = em.GMMMachine(2, trainer="map", ubm=self.prior)
